@@ -680,6 +680,21 @@ func (e *Exec) ufConstraints(s *Script) {
 						differ = tb.Or(differ, d)
 					}
 					s.Assert(tb.Or(differ, tb.Cmp(OEq, a.out, b.out)))
+					if n != "crc32" {
+						// cryptographic hashes are idealised as collision-free in a cheap, partial form:
+						// equal digests imply inputs of equal length that agree on their first 4 bytes
+						same := tb.True()
+						for k := range a.seqs {
+							qa, qb := a.seqs[k], b.seqs[k]
+							same = tb.And(same, tb.Cmp(OEq, qa.len, qb.len))
+							for p := uint64(0); p < 4; p++ {
+								kp := tb.K(64, p)
+								eq := tb.Cmp(OEq, e.seqByte(qa, kp), e.seqByte(qb, kp))
+								same = tb.And(same, tb.Or(tb.Not(tb.Cmp(OUlt, kp, qa.len)), eq))
+							}
+						}
+						s.Assert(tb.Or(tb.Not(tb.Cmp(OEq, a.out, b.out)), same))
+					}
 				}
 			}
 		}
